@@ -5,6 +5,7 @@ package probe
 //
 //	hdr:Name=Value   set a response header          status:N     WriteHeader(N)
 //	write:N          write N pattern bytes           text:S       write the literal S
+//	sleep:MS         sleep MS milliseconds
 //	flush            http.Flusher.Flush              read:K       read the request body in chunks of K
 //	report           write {"read":n,"err":"…","sum":"…"} (JSON) as the body (status 200 unless set)
 //	ret:S            return (S, nil)                 reterr:S     return (S, error "probe error")
@@ -22,6 +23,7 @@ import (
 	"net/http"
 	"strconv"
 	"strings"
+	"time"
 
 	"github.com/tmpim/casket"
 	"github.com/tmpim/casket/caskethttp/httpserver"
@@ -87,6 +89,9 @@ func (p probeHandler) ServeHTTP(w http.ResponseWriter, r *http.Request) (int, er
 			w.Write(Pattern(n))
 		case "text":
 			w.Write([]byte(arg))
+		case "sleep":
+			ms, _ := strconv.Atoi(arg)
+			time.Sleep(time.Duration(ms) * time.Millisecond)
 		case "flush":
 			if f, ok := w.(http.Flusher); ok {
 				f.Flush()
